@@ -246,6 +246,27 @@ PositionalCases ==
            x \in {<<>>, <<SEmitF(<<"n">>)>>, <<SEmitF(<<"s", "n">>)>>}, ns \in {<<"n">>, <<"n", "s">>, <<"s", "n">>}, q \in BOOLEAN}
 
 (***************************************************************************)
+(* "abskey": an indexed assignment one of whose KEYS is absent is skipped as  *)
+(* a whole - it creates no level in front of the absent key either           *)
+(* (reference-main-null-data.md: "Absent ... on the left-hand side ... the   *)
+(* assignment is skipped"), whatever the target and the position of the key   *)
+(***************************************************************************)
+Nos == Fld("nosuch")
+AbsStmts == {SAssign(O("d", <<Fld("a"), Nos>>), NRx),                                                     \* @d[$a][$nosuch] = NR
+             SOp(O("d", <<Fld("a"), Nos>>), Idx(Oos("d"), <<Fld("a"), Nos>>), "+", Fld("a")),               \* @d[$a][$nosuch] += $a
+             SAssign(O("d", <<Nos, Fld("a")>>), NRx),
+             SAssign(O("d", <<Fld("a"), Fld("b")>>), NRx),                                                 \* (all keys present)
+             SAssign(O("d", <<Fld("b"), Fld("a"), Nos>>), NRx),
+             SAssign(Lhs("field", "y", <<Fld("a"), Nos>>), EInt(1)),                                       \* $y[$a][$nosuch] = 1
+             SAssign(O("h", <<Nos>>), EInt(1)),
+             SAssign(O("d", <<Fld("b")>>), MapLit(<<>>)),
+             SAssign(Lhs("local", "m", <<Fld("a"), Nos>>), EInt(1)), SAssign(Lhs("local", "m", <<Fld("a"), Fld("b")>>), EInt(1))}
+AbsKeyCases ==
+  {Case(Prog(<<>>, <<>>, <<SDecl("map", "m", MapLit(<<>>))>> \o m \o <<SPrint(Bif("json_stringify", <<Lc("m")>>))>>,
+             <<SPrint(Bif("json_stringify", <<Oos("d")>>)), SPrint(Bif("json_stringify", <<Oos("h")>>))>>, q), Recs2) :
+     m \in Seqs(AbsStmts, 1, 2), q \in BOOLEAN}
+
+(***************************************************************************)
 (* "emitp": emit and emitp side by side on one-, two- and three-level maps   *)
 (* with fewer, as many and more names than levels                           *)
 (***************************************************************************)
@@ -407,6 +428,6 @@ EmitSnapCases ==
   \cup {LawCase(Prog(<<>>, <<>>, t \o <<e>>, fin, TRUE), Recs2, Prog(<<>>, <<>>, t \o <<e>>, <<>>, TRUE), SubSeq(Recs2, 1, k)) :
            t \in {Tally, TallyMapFirst}, e \in REmit, fin \in {<<>>, <<SEmit("r", <<>>)>>}, k \in {1, 2}}
 
-Cases == CASE Family = "emitp" -> EmitPCases [] Family = "positional" -> PositionalCases [] Family = "emitsnap" -> EmitSnapCases [] Family = "unset" -> UnsetCases [] Family = "multifor" -> MultiForCases [] Family = "hof" -> HofCases [] Family = "scope" -> ScopeCases [] Family = "func" -> FuncCases [] Family = "loops" -> LoopCases
+Cases == CASE Family = "abskey" -> AbsKeyCases [] Family = "emitp" -> EmitPCases [] Family = "positional" -> PositionalCases [] Family = "emitsnap" -> EmitSnapCases [] Family = "unset" -> UnsetCases [] Family = "multifor" -> MultiForCases [] Family = "hof" -> HofCases [] Family = "scope" -> ScopeCases [] Family = "func" -> FuncCases [] Family = "loops" -> LoopCases
            [] Family = "records" -> RecordCases [] Family = "index" -> IndexCases [] Family = "expr" -> ExprCases
 =============================================================================
